@@ -57,6 +57,8 @@ func allProps() []Prop {
 	donep3 := caseJobs("VerifH_donep3", map[string][]int{"method": {0}, "stale": {0}, "on": {0, 1, 2}}, []string{"method", "stale", "on"})
 	usc := caseJobs("VerifH_usc", map[string][]int{"arg_sc": {0, 1, 2, 3}}, []string{"arg_sc"})
 	uccs := one("VerifH_uccs")
+	usc2 := one("VerifH_usc2")
+	usc2[0].TmoMs = 60000
 	initJ := one("VerifH_init")
 	rr := caseJobs("VerifH_rr", map[string][]int{"interference": {0, 1, 2}}, []string{"interference"}, "rr", "atomicHavoc")
 	for i := range rr {
@@ -136,7 +138,7 @@ func allProps() []Prop {
 		"locator":     "path of 1..4 segments, each a symbolic choice among the field names in either case, an unknown name, the empty segment (strings.Split is exercised separately on 7 constant locators)",
 		"loop unroll": "6",
 	}
-	icptJobs := cat(one("VerifH_unary"), one("VerifH_stream", "steps=4"), one("VerifH_streamwait"), caseJobs("VerifH_streamconc", map[string][]int{"dir": {1, 2}}, []string{"dir"}))
+	icptJobs := cat(one("VerifH_unary"), one("VerifH_stream", "steps=4"), one("VerifH_streamwait"), caseJobs("VerifH_streamconc", map[string][]int{"dir": {1, 2}}, []string{"dir"}), one("VerifH_streamblock"))
 	icptJobs[2].NoReplay = true // natively the receiver would block in the real cond.Wait: no sender goroutine in the replay
 	icptBounds := map[string]string{"calls": "any sequence of up to 4 calls out of SendMsg/Header/Trailer/CloseSend/Context/RecvMsg-after-first-send from one goroutine; creation succeeding or failing", "interleaving": "one receiver blocked in cond.Wait + one sender running the real SendMsg while it is blocked (or nobody: context ends); on an existing stream: the real SendMsg inline while RecvMsg is inside the underlying stream, and vice versa; lock discipline of ClientStream/initStreamErr as lockset obligations", "options": "0..2 call options", "loop unroll": "6"}
 	var gmeQuick, gmeAll []Job
@@ -202,9 +204,9 @@ func allProps() []Prop {
 		{ID: "C13", Jobs: meJobs, Panics: true, Assume: commonAssume, Bounds: meBounds},
 		{ID: "C14", Jobs: meJobs, Assume: commonAssume, Bounds: meBounds},
 		{ID: "C01", Jobs: cat(usc, uccs, pick, pickRR, done), Assume: commonAssume, Bounds: gbBounds},
-		{ID: "C02", Jobs: cat(usc, uccs, pick, pickRR, done, rr, rrwin, grow), Assume: commonAssume, Bounds: gbBounds},
+		{ID: "C02", Jobs: cat(usc, usc2, uccs, pick, pickRR, done, rr, rrwin, grow), Assume: commonAssume, Bounds: gbBounds},
 		{ID: "C03", Jobs: cat(initJ, usc, uccs, pick, done, donep3, grow), Assume: commonAssume, Bounds: gbBounds},
-		{ID: "C04", Jobs: cat(cnt, initJ, usc, errpick, pick, done), Assume: commonAssume, Bounds: gbBounds},
+		{ID: "C04", Jobs: cat(cnt, initJ, usc, usc2, errpick, pick, done), Assume: commonAssume, Bounds: gbBounds},
 		{ID: "C05", Jobs: cat(allGb, keysJobs), Panics: true, Assume: commonAssume, Bounds: gbBounds},
 		{ID: "C06", Jobs: allGb, Progress: true, Assume: commonAssume, Bounds: gbBounds},
 		{ID: "C07", Jobs: cat(initJ, usc, done, donep3, []Job{{Dir: gcp, Harness: gcp, Entry: "VerifH_window", TmoMs: 240000, Note: "independent mathematical form of the detection window"}}), Assume: commonAssume, Bounds: gbBounds},
